@@ -46,7 +46,7 @@ Ret == /\ At("ret")
 R(a) == a + Len(T)
 SSend(p) == pend[p].op = "send" /\ \E N \in SendStep(M, T, p) : M' = N /\ UNCHANGED pend
 SRecv(a) == /\ pend[R(a)].op = "recv" /\ ~pend[R(a)].done
-            /\ \E o \in Rv(M, T, a, a) : /\ M' = o.M
+            /\ \E o \in {x \in Rv(M, T, a, a) : x.t # "panic"} : /\ M' = o.M
                                          /\ pend' = IF o.t = "prog" THEN pend ELSE [pend EXCEPT ![R(a)] = [op |-> "recv", done |-> TRUE, rv |-> o.v]]
 SClose(a) == /\ pend[R(a)].op = "close" /\ ~pend[R(a)].done
              /\ M' = CloseR(M, T, a) /\ pend' = [pend EXCEPT ![R(a)] = [op |-> "close", done |-> TRUE, rv |-> 0]]
